@@ -110,8 +110,15 @@ def run(rep, tier, seed):
             if mode == "emacs":
                 sess.append(keys(rng.choice([b"\x15", b"\x01\x0b", b"\x0b", b"\x17", b"\x05\x15", b"\x1bd"])))
                 sess.append(keys(b"\x19"))
+                if rng.random() < 0.4:
+                    # the ring is rotated (yank-pop right after the yank, once or twice): the kills that follow still go on top
+                    sess.append(keys(b"\x1by"))
+                    if rng.random() < 0.4:
+                        sess.append(keys(b"\x1by"))
                 for _ in range(rng.randint(1, 4)):
                     sess.append(keys(rng.choice([b"\x02", b"\x02", b"\x1bb", b"\x01", b"Z", b" ", b"\x14", b"\x1bu", b"\x1bl", b"\x1bc", b"\x06", b"\x1f"])))
+                if rng.random() < 0.5:
+                    sess.append(keys(rng.choice([b"\x01\x0b", b"\x17", b"\x15", b"\x1bd", b"\x1b\x7f"])))
                 sess.append(keys(rng.choice([b"\x19", b"\x05\x19", b"\x01\x19"])))
             else:
                 sess.append(keys(rng.choice([b"0D", b"D", b"x", b"0d$", b"dw", b"0dw", b"dd"])))
